@@ -364,7 +364,10 @@ Agrees(od, r) ==
 \* obs = [kind, d]   kind \in {"ok", "liberr", "exc", "hang"}
 LoadsVerdict(b, hex, obs) ==
     LET r == Reading(b, hex) IN
-    IF obs.kind \notin {"ok", "liberr"} THEN "outcome-class-" \o obs.kind
+    \* neither a result nor the library's error (a foreign exception, a hang): C07's clause; on a message that had to be
+    \* accepted it is at the same time a refusal (C02 / C08)
+    IF obs.kind \notin {"ok", "liberr"}
+    THEN (IF r.st = "strict" THEN "rejected-a-must-accept-with-outcome-class-" ELSE "outcome-class-") \o obs.kind
     ELSE IF r.st = "bad" THEN (IF obs.kind = "ok" THEN "accepted-a-must-reject" ELSE "")
     ELSE IF obs.kind = "liberr" THEN (IF r.st = "strict" THEN "rejected-a-must-accept" ELSE "")
     ELSE IF Agrees(obs.d, r) THEN "" ELSE "reading-differs"
